@@ -768,7 +768,11 @@ def _split_high_low(ax, c):
         lo += k * (g[0] if k > 0 else g[1])
         hi += k * (g[1] if k > 0 else g[0])
     if lo < 0 or hi >= c:
-        return None
+        # the low part stays inside one interval [m*c, (m+1)*c) in every state: borrow / carry m into the quotient
+        m = lo // c
+        if hi // c != m:
+            return None
+        return Aff({s_: k // c for s_, k in high.items()}, k0 + m), Aff(dict(low), l0 - m * c)
     return Aff({s_: k // c for s_, k in high.items()}, k0), Aff(dict(low), l0)
 
 
